@@ -1,5 +1,5 @@
 (** C09 (connection level) — proofs about Model/RangeConn.v *)
-From KV Require Import Bytes RustInt Range RangeProofs RangeConn.
+From KV Require Import Bytes RustInt Range RangeProofs DecProofs RangeConn.
 From Coq Require Import ZifyBool ZifyNat ZifyN.
 Open Scope N_scope.
 Arguments N.add : simpl never. Arguments N.sub : simpl never. Arguments N.mul : simpl never.
@@ -17,109 +17,398 @@ Proof.
   - rewrite Hd. cbn. lia.
 Qed.
 
+(** [sanitize_request] refuses exactly the headers that denote a range with start > end. *)
+Lemma sanitize_rejected hdr :
+  (rejected hdr = true /\ exists e, sanitize_range hdr = Err e) \/
+  (rejected hdr = false /\ exists range, sanitize_range hdr = Ok range).
+Proof.
+  unfold rejected, sanitize_range, header_range.
+  destruct hdr as [v|]; [|right; split; [reflexivity|eexists; reflexivity]].
+  destruct (parse_range v) as [[a c]|]; [|right; split; [reflexivity|eexists; reflexivity]].
+  destruct (c <? a).
+  - left. split; [reflexivity|eexists; reflexivity].
+  - right. split; [reflexivity|eexists; reflexivity].
+Qed.
+
+Lemma rejected_spec_416 status hdr body : rejected hdr = true -> range_spec_st status (header_range hdr) body = R416.
+Proof.
+  unfold rejected, range_spec_st, range_spec. destruct (header_range hdr) as [[a c]|]; [|discriminate].
+  intros H. replace (a <=? c) with false by lia. reflexivity.
+Qed.
+
 (** [send] applied to a representation, with the [sanitize_request] result of the same header,
     is the specification of that representation. *)
-Lemma send_repr_spec checked m rp hdr :
-  N.of_nat (length (rp_body rp)) <= u64_max ->
-  (exists range, sanitize_range hdr = Ok range /\
-     send_m checked m (Ok range) (L4Repr rp) = Ok (wire_spec m rp hdr))
-  \/ ((exists e, sanitize_range hdr = Err e) /\ wire_spec m rp hdr = W416).
+Lemma send_repr_spec checked m status rp hdr range :
+  N.of_nat (length (rp_body rp)) <= u64_max -> status <> 304 ->
+  sanitize_range hdr = Ok range ->
+  send_m checked m (Ok range) (L4Resp status rp) = Ok (wire_spec status m rp hdr).
 Proof.
-  intros Hlen.
-  pose proof (serve_range_spec checked hdr (rp_body rp) Hlen) as Hs.
-  unfold serve_range in Hs. unfold wire_spec. rewrite header_range_denoted.
-  destruct (sanitize_range hdr) as [range|e|] eqn:Hsd.
-  - left. exists range. split; [reflexivity|].
-    cbn [send_m].
-    destruct (apply_range checked range 200 (rp_body rp)) as [r|e|] eqn:Ha.
-    + injection Hs as Hr. rewrite <- Hr. reflexivity.
-    + injection Hs as Hr. rewrite <- Hr. reflexivity.
-    + discriminate Hs.
-  - right. split; [exists e; reflexivity|].
-    injection Hs as Hr. rewrite <- Hr. reflexivity.
+  intros Hlen Hst Hsd.
+  pose proof (serve_range_spec_st checked hdr status (rp_body rp) Hlen) as Hs.
+  unfold serve_range in Hs. rewrite Hsd in Hs. unfold wire_spec. rewrite header_range_denoted.
+  unfold send_m, send_gen. replace (N.eqb status 304) with false by lia. cbn [andb].
+  destruct (apply_range checked range status (rp_body rp)) as [r|e|] eqn:Ha.
+  - injection Hs as Hr. rewrite <- Hr. reflexivity.
+  - injection Hs as Hr. rewrite <- Hr. reflexivity.
   - discriminate Hs.
 Qed.
 
 (** One step: whatever the cache entry (absent or this page's), the reply is the specification
-    and the entry stays absent or this page's. *)
+    and the entry stays absent or this page's; it is present afterwards exactly when the
+    specification says the server holds the response. *)
+Lemma rstep_spec checked caching status pg cache q :
+  page_fits pg -> cache_ok pg cache -> status <> 304 ->
+  fst (rstep checked caching status pg cache q) = Ok (reply_spec status pg (is_stored cache) q) /\
+  cache_ok pg (snd (rstep checked caching status pg cache q)) /\
+  is_stored (snd (rstep checked caching status pg cache q)) = stored_after caching (is_stored cache) q.
+Proof.
+  intros Hf Hc Hst. unfold rstep, rstep_gen, reply_spec, stored_after, answers_304.
+  destruct (sanitize_rejected (rq_range q)) as [[Hrej [e Hsd]]|[Hrej [range Hsd]]]; rewrite Hsd, Hrej.
+  - (* start > end: the error page, nothing stored *)
+    unfold handle_cache_m. cbn [fst snd send_gen negb andb].
+    rewrite Bool.andb_false_r, Bool.orb_false_r. repeat split; [exact Hc].
+  - pose proof (fun m => send_repr_spec checked m status (choose pg (rq_ae q)) (rq_range q) range
+                           (choose_fits pg (rq_ae q) Hf) Hst Hsd) as Hsend.
+    unfold send_m in Hsend. cbn [negb]. rewrite Bool.andb_true_r.
+    destruct Hc as [->| ->]; unfold handle_cache_m; cbn [is_stored andb orb].
+    + (* nothing stored: the handler runs *)
+      cbn [fst snd]. split; [apply Hsend|].
+      destruct caching, (get_or_head (rq_method q)); cbn [andb is_stored];
+        (split; [first [left; reflexivity|right; reflexivity]|reflexivity]).
+    + (* this page is stored *)
+      destruct (get_or_head (rq_method q)) eqn:Hm; cbn [andb].
+      * destruct (fresh q) eqn:Hfr; cbn [fst snd is_stored].
+        -- split; [|split; [right; reflexivity|reflexivity]].
+           unfold send_gen. cbn [andb]. replace (N.eqb 304 304) with true by reflexivity.
+           unfold on_wire, untouched, not_modified, no_repr.
+           cbn [r_status r_content_range r_accept_ranges r_body rp_encoding rp_body length].
+           destruct (rq_method q); reflexivity.
+        -- split; [apply Hsend|split; [right; reflexivity|reflexivity]].
+      * cbn [fst snd]. split; [apply Hsend|].
+        rewrite Bool.andb_false_r. cbn [is_stored]. split; [right; reflexivity|reflexivity].
+Qed.
+
+Lemma reply_spec_unconditional status pg stored q :
+  fresh q = false -> reply_spec status pg stored q = reply_spec status pg false q.
+Proof.
+  intros H. unfold reply_spec, answers_304. rewrite H. rewrite Bool.andb_false_r. reflexivity.
+Qed.
+
+(** The special case used by C02 (Model/Panics.v). *)
 Lemma conn_step_spec checked caching pg cache q :
   page_fits pg -> cache_ok pg cache ->
-  fst (conn_step checked caching pg cache q) = Ok (reply_spec pg q) /\
+  fst (conn_step checked caching pg cache q) = Ok (reply_spec_200 pg q) /\
   cache_ok pg (snd (conn_step checked caching pg cache q)).
 Proof.
-  intros Hf Hc. unfold conn_step, reply_spec.
-  destruct (send_repr_spec checked (q_method q) (choose pg (q_ae q)) (q_range q) (choose_fits pg (q_ae q) Hf))
-    as [[range [Hsd Hsend]]|[[e Hsd] Hspec]]; rewrite Hsd.
-  - destruct Hc as [->| ->]; cbn [handle_cache_m fst snd].
-    + split; [exact Hsend|]. destruct caching; [right|left]; reflexivity.
-    + split; [exact Hsend|]. right; reflexivity.
-  - rewrite Hspec.
-    destruct Hc as [->| ->]; cbn [handle_cache_m fst snd send_m]; (split; [reflexivity|]);
-      [left|right]; reflexivity.
+  intros Hf Hc. unfold conn_step, reply_spec_200.
+  assert (Hst : 200 <> 304) by discriminate.
+  destruct (rstep_spec checked caching 200 pg cache (lift_creq q) Hf Hc Hst) as [H1 [H2 _]].
+  split; [|exact H2]. rewrite H1.
+  rewrite (reply_spec_unconditional 200 pg (is_stored cache) (lift_creq q)) by reflexivity. reflexivity.
 Qed.
 
-Lemma serve_history_spec checked caching pg cache reqs :
-  page_fits pg -> cache_ok pg cache ->
-  serve_history checked caching pg cache reqs = Ok (history_spec pg reqs).
+Lemma serve_history_spec checked caching status pg cache reqs :
+  page_fits pg -> cache_ok pg cache -> status <> 304 ->
+  serve_history checked caching status pg cache reqs = Ok (history_spec caching status pg (is_stored cache) reqs).
 Proof.
-  intros Hf. revert cache. induction reqs as [|q rest IH]; intros cache Hc; [reflexivity|].
-  cbn [serve_history history_spec map].
-  destruct (conn_step_spec checked caching pg cache q Hf Hc) as [H1 H2].
-  destruct (conn_step checked caching pg cache q) as [o cache'].
-  cbn [fst snd] in H1, H2. rewrite H1. cbn [obind].
-  rewrite (IH cache' H2). reflexivity.
+  intros Hf Hc Hst. revert cache Hc. induction reqs as [|q rest IH]; intros cache Hc; [reflexivity|].
+  cbn [serve_history history_spec].
+  destruct (rstep_spec checked caching status pg cache q Hf Hc Hst) as [H1 [H2 H3]].
+  destruct (rstep checked caching status pg cache q) as [o cache'].
+  cbn [fst snd] in H1, H2, H3. rewrite H1. cbn [obind].
+  rewrite (IH cache' H2). rewrite H3. reflexivity.
 Qed.
 
-(** The reply to a request does not depend on what was requested before on the connection
-    (which warms, or does not warm, the response cache), nor on whether there is a cache. *)
-Lemma reply_after_spec checked caching pg pre q :
-  page_fits pg -> reply_after checked caching pg pre q = Ok (reply_spec pg q).
+
+Lemma history_spec_app caching status pg stored pre q :
+  history_spec caching status pg stored (pre ++ [q])
+  = history_spec caching status pg stored pre
+    ++ [reply_spec status pg (fold_left (stored_after caching) pre stored) q].
 Proof.
-  intros Hf. unfold reply_after.
-  rewrite (serve_history_spec checked caching pg None (pre ++ [q]) Hf) by (left; reflexivity).
-  cbn [obind]. unfold history_spec. rewrite map_app. cbn [map].
-  rewrite last_last. reflexivity.
+  revert stored. induction pre as [|p rest IH]; intros stored; [reflexivity|].
+  cbn [app history_spec fold_left]. rewrite IH. reflexivity.
 Qed.
 
-Lemma reply_after_independent checked1 checked2 caching1 caching2 pg pre1 pre2 q :
-  page_fits pg ->
-  reply_after checked1 caching1 pg pre1 q = reply_after checked2 caching2 pg pre2 q.
-Proof. intros Hf. rewrite !reply_after_spec by assumption. reflexivity. Qed.
+(** The reply to a request after a history prefix depends on the prefix only through "does the server
+    hold the response" — and not even on that unless the request is a conditional one. *)
+Lemma reply_after_spec checked caching status pg pre q :
+  page_fits pg -> status <> 304 ->
+  reply_after checked caching status pg pre q = Ok (reply_spec status pg (stored_by caching pre) q).
+Proof.
+  intros Hf Hst. unfold reply_after.
+  rewrite (serve_history_spec checked caching status pg None (pre ++ [q]) Hf) by (first [left; reflexivity|assumption]).
+  cbn [obind is_stored]. rewrite history_spec_app. rewrite last_last. reflexivity.
+Qed.
+
+Lemma reply_after_independent checked caching status pg pre q :
+  page_fits pg -> status <> 304 -> fresh q = false ->
+  reply_after checked caching status pg pre q = Ok (reply_spec status pg false q).
+Proof.
+  intros Hf Hst Hfr. rewrite reply_after_spec by assumption.
+  rewrite reply_spec_unconditional by assumption. reflexivity.
+Qed.
 
 (** HEAD: the GET reply's status and headers, no body — in every cache state. *)
-Lemma wire_spec_head rp hdr : wire_spec HEAD rp hdr = strip_body (wire_spec GET rp hdr).
+Lemma wire_spec_head status rp hdr : wire_spec status HEAD rp hdr = strip_body (wire_spec status GET rp hdr).
 Proof.
-  unfold wire_spec. destruct (range_spec (header_range hdr) (rp_body rp)); reflexivity.
+  unfold wire_spec. destruct (range_spec_st status (header_range hdr) (rp_body rp)); reflexivity.
 Qed.
 
-Lemma head_as_get checked caching pg cache ae hdr :
-  page_fits pg -> cache_ok pg cache ->
-  fst (conn_step checked caching pg cache {| q_method := HEAD; q_ae := ae; q_range := hdr |})
+Lemma head_as_get checked caching status pg cache ae hdrs ims :
+  page_fits pg -> cache_ok pg cache -> status <> 304 ->
+  fst (rstep checked caching status pg cache {| rq_method := HEAD; rq_ae := ae; rq_ranges := hdrs; rq_ims := ims |})
   = omap strip_body
-      (fst (conn_step checked caching pg cache {| q_method := GET; q_ae := ae; q_range := hdr |})).
+      (fst (rstep checked caching status pg cache {| rq_method := GET; rq_ae := ae; rq_ranges := hdrs; rq_ims := ims |})).
 Proof.
-  intros Hf Hc.
-  destruct (conn_step_spec checked caching pg cache {| q_method := HEAD; q_ae := ae; q_range := hdr |} Hf Hc) as [H1 _].
-  destruct (conn_step_spec checked caching pg cache {| q_method := GET; q_ae := ae; q_range := hdr |} Hf Hc) as [H2 _].
-  rewrite H1, H2. cbn [omap]. unfold reply_spec. cbn [q_method q_ae q_range].
+  intros Hf Hc Hst.
+  destruct (rstep_spec checked caching status pg cache {| rq_method := HEAD; rq_ae := ae; rq_ranges := hdrs; rq_ims := ims |} Hf Hc Hst) as [H1 _].
+  destruct (rstep_spec checked caching status pg cache {| rq_method := GET; rq_ae := ae; rq_ranges := hdrs; rq_ims := ims |} Hf Hc Hst) as [H2 _].
+  rewrite H1, H2. cbn [omap]. unfold reply_spec, answers_304, rq_range, fresh. cbn [rq_method rq_ae rq_ranges rq_ims get_or_head].
+  destruct (rejected (hd_error (rev hdrs))); [reflexivity|].
+  destruct (is_stored cache && true && (ims =? 1)); [reflexivity|].
   rewrite wire_spec_head. reflexivity.
 Qed.
 
 (** A ranged reply is a slice of the un-ranged reply of the same Accept-Encoding class:
     206 body = bytes a..=min(b,len-1) of the 200 body, and the encoding header is the same. *)
-Lemma ranged_is_slice_of_unranged pg ae v a c :
+Lemma rq_range_last m ae more v ims :
+  rq_range {| rq_method := m; rq_ae := ae; rq_ranges := more ++ [v]; rq_ims := ims |} = Some v.
+Proof. unfold rq_range. cbn [rq_ranges]. rewrite rev_app_distr. reflexivity. Qed.
+
+Lemma ranged_is_slice_of_unranged pg ae v more a c :
   parse_range v = Some (a, c) -> a <= c -> a < N.of_nat (length (rp_body (choose pg ae))) ->
   exists full part,
-    reply_spec pg {| q_method := GET; q_ae := ae; q_range := None |} = WResp full /\
-    reply_spec pg {| q_method := GET; q_ae := ae; q_range := Some v |} = WResp part /\
+    reply_spec 200 pg false {| rq_method := GET; rq_ae := ae; rq_ranges := []; rq_ims := 0 |} = WResp full /\
+    reply_spec 200 pg false {| rq_method := GET; rq_ae := ae; rq_ranges := more ++ [v]; rq_ims := 0 |} = WResp part /\
     w_status full = 200 /\ w_status part = 206 /\
     w_content_encoding part = w_content_encoding full /\
     w_body part = firstn (N.to_nat (N.min c (w_content_length full - 1) - a + 1)) (skipn (N.to_nat a) (w_body full)) /\
     w_content_length part = N.of_nat (length (w_body part)).
 Proof.
-  intros Hp Hac Hlen. unfold reply_spec, wire_spec. cbn [q_method q_ae q_range header_range].
-  rewrite Hp. unfold range_spec.
+  intros Hp Hac Hlen. unfold reply_spec, answers_304, wire_spec, rejected. rewrite rq_range_last.
+  unfold rq_range. cbn [rq_method rq_ae rq_ranges rq_ims header_range hd_error rev app andb].
+  rewrite Hp. replace (c <? a) with false by lia.
+  unfold range_spec_st, range_spec.
   replace (a <=? c) with true by lia. replace (a <? N.of_nat (length (rp_body (choose pg ae)))) with true by lia.
-  cbn [andb]. eexists. eexists. split; [reflexivity|]. split; [reflexivity|].
-  cbn [w_status w_content_encoding w_body w_content_length r_status r_body]. repeat split; reflexivity.
+  cbn [andb wire_of]. eexists. eexists. split; [reflexivity|]. split; [reflexivity|].
+  cbn [w_status w_content_encoding w_body w_content_length r_status r_body r_content_range r_accept_ranges].
+  repeat split; reflexivity.
+Qed.
+
+(** Only the last [Range] line of a request is looked at. *)
+Lemma last_range_line checked caching status pg cache m ae v more ims :
+  rstep checked caching status pg cache {| rq_method := m; rq_ae := ae; rq_ranges := more ++ [v]; rq_ims := ims |}
+  = rstep checked caching status pg cache {| rq_method := m; rq_ae := ae; rq_ranges := [v]; rq_ims := ims |}.
+Proof.
+  unfold rstep, rstep_gen. rewrite rq_range_last. reflexivity.
+Qed.
+
+(** The reply to a request is the property's function of the reply to the same request without Range,
+    in the same state of the server ("the representation that a request without Range would receive"). *)
+Lemma range_spec_st_none status body :
+  range_spec_st status None body
+  = RResp {| r_status := status; r_content_range := None;
+             r_accept_ranges := negb (N.eqb (N.of_nat (length body)) 0); r_body := body |}.
+Proof.
+  unfold range_spec_st, range_spec. cbn [r_status r_content_range r_accept_ranges r_body].
+  destruct (N.eqb_spec status 200) as [->|]; reflexivity.
+Qed.
+
+Lemma unranged_not_rejected q : rejected (rq_range (unranged q)) = false.
+Proof. reflexivity. Qed.
+
+Lemma ranged_of_unranged checked caching status pg cache q :
+  page_fits pg -> cache_ok pg cache -> status <> 304 -> rq_method q <> HEAD ->
+  fst (rstep checked caching status pg cache q)
+  = omap (ranged_of (rq_range q)) (fst (rstep checked caching status pg cache (unranged q))).
+Proof.
+  intros Hf Hc Hst Hm.
+  destruct (rstep_spec checked caching status pg cache q Hf Hc Hst) as [H1 _].
+  destruct (rstep_spec checked caching status pg cache (unranged q) Hf Hc Hst) as [H2 _].
+  rewrite H1, H2. cbn [omap]. f_equal.
+  unfold reply_spec, ranged_of. rewrite unranged_not_rejected.
+  destruct (rejected (rq_range q)) eqn:Hrej; [reflexivity|].
+  replace (answers_304 (is_stored cache) (unranged q)) with (answers_304 (is_stored cache) q) by reflexivity.
+  destruct (answers_304 (is_stored cache) q); [reflexivity|].
+  unfold wire_spec. cbn [unranged rq_range rq_ranges hd_error header_range rq_method rq_ae].
+  set (rp := choose pg (rq_ae q)).
+  (* the un-ranged reply: status [status], the whole representation *)
+  rewrite range_spec_st_none.
+  cbn [wire_of r_status r_content_range r_accept_ranges r_body w_status w_body w_content_encoding].
+  replace (N.eqb status 304) with false by lia.
+  assert (Hb : (match rq_method q with HEAD => [] | _ => rp_body rp end) = rp_body rp).
+  { destruct (rq_method q); [reflexivity|contradiction|reflexivity]. }
+  rewrite Hb.
+  destruct (range_spec_st status (header_range (rq_range q)) (rp_body rp)) as [|r]; [reflexivity|].
+  cbn [wire_of]. destruct (rq_method q); [reflexivity|contradiction|reflexivity].
+Qed.
+
+(** Conditional requests: when the server holds the response and the client's copy is fresh, a
+    GET/HEAD with a Range header that is not refused is answered 304 — as without the header. *)
+Lemma conditional_304 checked caching status pg q :
+  page_fits pg -> status <> 304 -> get_or_head (rq_method q) = true -> fresh q = true ->
+  rejected (rq_range q) = false ->
+  fst (rstep checked caching status pg (Some pg) q) = Ok not_modified /\
+  fst (rstep checked caching status pg (Some pg) (unranged q)) = Ok not_modified.
+Proof.
+  intros Hf Hst Hm Hfr Hrej.
+  destruct (rstep_spec checked caching status pg (Some pg) q Hf (or_intror eq_refl) Hst) as [H1 _].
+  destruct (rstep_spec checked caching status pg (Some pg) (unranged q) Hf (or_intror eq_refl) Hst) as [H2 _].
+  rewrite H1, H2. unfold reply_spec. rewrite Hrej, unranged_not_rejected.
+  replace (answers_304 (is_stored (Some pg)) (unranged q)) with (answers_304 (is_stored (Some pg)) q) by reflexivity.
+  unfold answers_304. rewrite Hm, Hfr. split; reflexivity.
+Qed.
+
+(** kvarn 0.6.3 answered such a request 416 ("Range start after end of body": the range was applied to
+    the empty body of the 304). *)
+Lemma ex_page_fits : page_fits ex_page.
+Proof. repeat constructor; vm_compute; discriminate. Qed.
+
+Lemma conditional_063_refuted :
+  exists pg q, page_fits pg /\ get_or_head (rq_method q) = true /\ fresh q = true /\ rejected (rq_range q) = false /\
+    fst (rstep_063 true true 200 pg (Some pg) (unranged q)) = Ok not_modified /\
+    fst (rstep_063 true true 200 pg (Some pg) q) = Ok W416.
+Proof.
+  exists ex_page, ex_conditional. split; [exact ex_page_fits|]. vm_compute. repeat split; reflexivity.
+Qed.
+
+(** ---- streamed files ---- *)
+Lemma stream_step_spec checked file q :
+  N.of_nat (length file) <= u64_max ->
+  stream_step true checked file q = Ok (stream_spec file q).
+Proof.
+  intros Hlen. unfold stream_step, stream_spec.
+  destruct (sanitize_rejected (rq_range q)) as [[Hrej [e Hsd]]|[Hrej [range Hsd]]]; rewrite Hsd.
+  - pose proof (rejected_spec_416 200 (rq_range q) file Hrej) as H. rewrite range_spec_st_200 in H. rewrite H. reflexivity.
+  - unfold rejected in Hrej. unfold sanitize_range in Hsd. unfold header_range in *.
+    destruct (rq_range q) as [v|].
+    2:{ injection Hsd as <-. unfold stream_prepare, range_spec. cbn [andb].
+        unfold sub_u64. replace (0 <=? N.min (N.of_nat (length file)) (N.of_nat (length file))) with true by lia.
+        cbn [obind sw_head sw_sent w_content_length w_status w_content_range].
+        replace (N.min (N.of_nat (length file)) (N.of_nat (length file)) - 0) with (N.of_nat (length file)) by lia.
+        replace (N.min (N.min (N.of_nat (length file)) (N.of_nat (length file))) (N.of_nat (length file)) - 0)
+          with (N.of_nat (length file)) by lia.
+        cbn [skipn N.to_nat]. replace (N.to_nat 0) with 0%nat by reflexivity. cbn [skipn].
+        replace (N.to_nat (N.of_nat (length file))) with (length file) by lia.
+        rewrite firstn_all. replace (N.of_nat (length file) <? N.of_nat (length file)) with false by lia.
+        cbn [r_status r_content_range r_body]. rewrite firstn_all. reflexivity. }
+    destruct (parse_range v) as [[a c]|] eqn:Hp.
+    2:{ injection Hsd as <-. unfold stream_prepare, range_spec. cbn [andb].
+        unfold sub_u64. replace (0 <=? N.min (N.of_nat (length file)) (N.of_nat (length file))) with true by lia.
+        cbn [obind sw_head sw_sent w_content_length w_status w_content_range].
+        replace (N.min (N.of_nat (length file)) (N.of_nat (length file)) - 0) with (N.of_nat (length file)) by lia.
+        replace (N.min (N.min (N.of_nat (length file)) (N.of_nat (length file))) (N.of_nat (length file)) - 0)
+          with (N.of_nat (length file)) by lia.
+        replace (N.to_nat 0) with 0%nat by reflexivity. cbn [skipn].
+        replace (N.to_nat (N.of_nat (length file))) with (length file) by lia.
+        rewrite firstn_all. replace (N.of_nat (length file) <? N.of_nat (length file)) with false by lia.
+        cbn [r_status r_content_range r_body]. rewrite firstn_all. reflexivity. }
+    apply parse_range_bounds in Hp as [Ha Hc].
+    replace (c <? a) with false in Hsd by lia. injection Hsd as <-.
+    unfold stream_prepare, range_spec. cbn [andb].
+    set (len := N.of_nat (length file)) in *.
+    replace (a <=? c) with true by lia. cbn [andb].
+    destruct (N.leb_spec len a) as [Hout|Hin].
+    + replace (a <? len) with false by lia. reflexivity.
+    + replace (a <? len) with true by lia.
+      assert (He : N.min (sat_add_u64 c 1) len = N.min c (len - 1) + 1).
+      { unfold sat_add_u64. lia. }
+      rewrite He. unfold sub_u64.
+      replace (a <=? N.min c (len - 1) + 1) with true by lia.
+      replace (1 <=? N.min c (len - 1) + 1) with true by lia.
+      cbn [obind sw_head sw_sent w_content_length w_status w_content_range].
+      replace (N.min (N.min c (len - 1) + 1) len - a) with (N.min c (len - 1) - a + 1) by lia.
+      replace (N.min c (len - 1) + 1 - a) with (N.min c (len - 1) - a + 1) by lia.
+      replace (N.min c (len - 1) + 1 - 1) with (N.min c (len - 1)) by lia.
+      set (sl := firstn (N.to_nat (N.min c (len - 1) - a + 1)) (skipn (N.to_nat a) file)).
+      assert (Hsl : N.of_nat (length sl) = N.min c (len - 1) - a + 1).
+      { unfold sl. rewrite firstn_length, skipn_length. lia. }
+      replace (N.of_nat (length sl) <? N.min c (len - 1) - a + 1) with false by lia.
+      cbn [r_status r_content_range r_body].
+      rewrite Hsl.
+      replace (firstn (N.to_nat (N.min c (len - 1) - a + 1)) sl) with sl; [reflexivity|].
+      symmetry. replace (N.to_nat (N.min c (len - 1) - a + 1)) with (length sl) by lia. apply firstn_all.
+Qed.
+
+Lemma stream_history_spec checked file reqs :
+  N.of_nat (length file) <= u64_max ->
+  stream_history true checked file reqs = Ok (map (stream_spec file) reqs).
+Proof.
+  intros Hlen. unfold stream_history. induction reqs as [|q rest IH]; [reflexivity|].
+  cbn [fold_right map]. rewrite stream_step_spec by assumption. cbn [obind].
+  rewrite IH. reflexivity.
+Qed.
+
+(** kvarn 0.6.3: a satisfiable range of a streamed file was answered 200 without content-range (a client
+    takes the slice for the whole file), and a range that ends after the file announced more bytes than
+    the file has (the reply never completes; on a kept-alive connection the next response is swallowed). *)
+Lemma stream_063_refuted :
+  N.of_nat (length ex_file) <= u64_max /\
+  stream_step false true ex_file (ex_get (B "bytes=2-5"))
+    = Ok (SResp {| w_status := 200; w_content_range := None; w_content_length := 4; w_content_encoding := None;
+                   w_accept_ranges := false; w_body := B "2345" |}) /\
+  stream_spec ex_file (ex_get (B "bytes=2-5"))
+    = SResp {| w_status := 206; w_content_range := Some (B "bytes 2-5/10"); w_content_length := 4;
+               w_content_encoding := None; w_accept_ranges := false; w_body := B "2345" |} /\
+  (exists w, stream_step false true ex_file (ex_get (B "bytes=8-20")) = Ok (SShort w (B "89")) /\
+             w_status w = 200 /\ w_content_length w = 13) /\
+  (exists w, stream_step false true ex_file (ex_get (B "bytes=10-12")) = Ok (SShort w []) /\ w_status w = 200) /\
+  stream_spec ex_file (ex_get (B "bytes=10-12")) = S416.
+Proof.
+  split; [vm_compute; discriminate|].
+  split; [vm_compute; reflexivity|]. split; [vm_compute; reflexivity|].
+  split; [eexists; split; [vm_compute; reflexivity|split; reflexivity]|].
+  split; [eexists; split; [vm_compute; reflexivity|reflexivity]|].
+  vm_compute. reflexivity.
+Qed.
+
+(** ---- tiling on the connection: consecutive ranged GETs reconstruct the representation ---- *)
+Lemma range_header_parses r :
+  fst r <= u64_max -> snd r <= u64_max -> parse_range (range_header r) = Some r.
+Proof.
+  intros Ha Hc. destruct r as [a c]. cbn [fst snd] in *. apply parse_range_syntax.
+  exists (dec a), (dec c). split; [reflexivity|].
+  split; apply parse_u64_number; apply parse_u64_dec; assumption.
+Qed.
+
+Lemma tile_ranges_bounds start ws :
+  Forall (fun w => 0 < w) ws ->
+  Forall (fun r => fst r <= snd r /\ snd r < start + sumN ws) (tile_ranges start ws).
+Proof.
+  intros Hw. revert start. induction Hw as [|w rest Hw Hrest IH]; intros start; cbn [tile_ranges sumN]; constructor.
+  - cbn [fst snd]. lia.
+  - specialize (IH (start + w)). eapply Forall_impl; [|exact IH].
+    intros r [H1 H2]. split; [exact H1|lia].
+Qed.
+
+Lemma tiling_history_bodies caching pg stored ae l :
+  Forall (fun r => fst r <= snd r /\ snd r <= u64_max) l ->
+  map wbody (history_spec caching 200 pg stored (map (get_range ae) l))
+  = map (fun r => reply_body (range_spec (Some r) (rp_body (choose pg ae)))) l.
+Proof.
+  intros Hl. revert stored. induction Hl as [|r rest [Hr1 Hr2] Hrest IH]; intros stored; [reflexivity|].
+  cbn [map history_spec]. rewrite IH. f_equal.
+  unfold reply_spec, answers_304, rejected, fresh, wire_spec, rq_range, get_range.
+  cbn [rq_method rq_ae rq_ranges rq_ims rev app hd_error header_range].
+  rewrite range_header_parses by lia. destruct r as [a c]. cbn [fst snd] in *.
+  replace (c <? a) with false by lia.
+  replace (0 =? 1) with false by reflexivity. rewrite Bool.andb_false_r.
+  rewrite range_spec_st_200.
+  destruct (range_spec (Some (a, c)) (rp_body (choose pg ae))) as [|g]; reflexivity.
+Qed.
+
+Lemma conn_tiling checked caching pg cache ae ws :
+  page_fits pg -> cache_ok pg cache ->
+  Forall (fun w => 0 < w) ws -> sumN ws = N.of_nat (length (rp_body (choose pg ae))) ->
+  exists replies,
+    serve_history checked caching 200 pg cache (map (get_range ae) (tile_ranges 0 ws)) = Ok replies /\
+    concat (map wbody replies) = rp_body (choose pg ae).
+Proof.
+  intros Hf Hc Hw Hsum. eexists. split.
+  - apply serve_history_spec; [assumption|assumption|discriminate].
+  - rewrite tiling_history_bodies.
+    + apply tiling; assumption.
+    + pose proof (choose_fits pg ae Hf) as Hfit.
+      eapply Forall_impl; [|exact (tile_ranges_bounds 0 ws Hw)].
+      intros r [H1 H2]. split; [exact H1|lia].
 Qed.
